@@ -26,6 +26,18 @@ InvFill == Len(hist) >= 1 => \A a \in Atoms : LET x == [t \in 1..Len(hist) |-> H
                   /\ FFill(x) = [t \in 1..Len(x) |-> PrevSite(x, t)]
                   /\ BFill(x) = [t \in 1..Len(x) |-> NextSite(x, t)]
 
+(* ---- C11: every frame of every atom falls in exactly one state class (at X / X->Y / transit with unknown end) ---- *)
+ClassOf(a, t) == LET x == [u \in 1..Len(hist) |-> H(a)[u][1]] IN
+                 IF x[t] # NOSITE THEN <<0, x[t], x[t]>>
+                 ELSE IF FFill(x)[t] = NOSITE \/ BFill(x)[t] = NOSITE THEN <<2, NOSITE, NOSITE>>
+                 ELSE <<1, FFill(x)[t], BFill(x)[t]>>
+InvStateClassPartition == Len(hist) >= 1 => \A a \in Atoms : \A t \in 1..Len(hist) :
+     LET x == [q \in 1..Len(hist) |-> H(a)[q][1]] c == ClassOf(a, t) IN
+       /\ (c[1] = 0 <=> x[t] # NOSITE)
+       /\ (c[1] = 1 => /\ x[t] = NOSITE /\ \E u \in 1..(t - 1) : x[u] = c[2] /\ \A w \in (u + 1)..t : x[w] = NOSITE
+                        /\ \E u2 \in (t + 1)..Len(hist) : x[u2] = c[3] /\ \A w2 \in t..(u2 - 1) : x[w2] = NOSITE)
+       /\ (c[1] = 2 => x[t] = NOSITE /\ ((\A u3 \in 1..t : x[u3] = NOSITE) \/ (\A u4 \in t..Len(hist) : x[u4] = NOSITE)))
+
 (* ---- C04 ---- *)
 J(a, m) == SeqToSet(JumpRowsAtom(EvRowsAtom(H(a), a - 1), m))
 InvDefScan == \A a \in Atoms : DefJumps(H(a), a - 1) = DefJumpsSet(H(a), a - 1)
